@@ -60,7 +60,7 @@ func BareHeads(p *Program, r *rand.Rand, pct int) (*Program, int) {
 			if d.IsShift() || !bare[t.Name] {
 				return d.M
 			}
-			return comps(d, seen)
+			return infer(d, seen) // a bare definition: its components, or the name it is an alias of
 		}
 		return comps(t, seen)
 	}
@@ -72,7 +72,7 @@ func BareHeads(p *Program, r *rand.Rand, pct int) (*Program, int) {
 		return Rep
 	}
 	defMode := func(td *TypeDef) Mode {
-		if m := comps(td.T, map[string]bool{}); m != NoMode {
+		if m := infer(td.T, map[string]bool{}); m != NoMode {
 			return m
 		}
 		return Rep
